@@ -224,7 +224,7 @@ func run(c *lib.Ctx) error {
 		defer wg.Done()
 		rSrv, eSrv = c.TLC("MCLspServer", lib.TLCRun{Dir: dir, Module: "MCLspServer", Workers: 2, Timeout: 12 * time.Minute, Coverage: false,
 			Files: map[string][]byte{"MCLspServer.cfg": []byte(fmt.Sprintf("CONSTANT MaxMsgs = %d\nCONSTANT Ordered = TRUE\nSPECIFICATION Spec\nINVARIANT InOrderOnce\nINVARIANT NoDuplicatePublish\nINVARIANT QuiescentComplete\nINVARIANT Causal\nINVARIANT ReplyAtLineStart\nINVARIANT FinalPublishFresh\nPROPERTY EventuallyQuiescent\n", maxMsgs))}})
-		if eSrv != nil || rSrv.ErrKind != "" {
+		if eSrv != nil || rSrv.ErrKind != "" || c.Quick() {
 			return
 		}
 		// the design of the code (publications race): TLC is expected to find the stale final
@@ -252,7 +252,9 @@ func run(c *lib.Ctx) error {
 	if rGen.ErrKind != "" {
 		return lib.Infra("generator model inconsistent: %s\n%s", rGen.Err, rGen.ErrTrace)
 	}
-	c.Set("model_candidate_racing_publications", rRace != nil && rRace.ErrKind == "invariant" && rRace.ErrName == "FinalPublishFresh")
+	if rRace != nil {
+		c.Set("model_candidate_racing_publications", rRace.ErrKind == "invariant" && rRace.ErrName == "FinalPublishFresh")
+	}
 	c.Logf("models: MCLspPos %d states, MCLspServer %d states, MCLspGen %d states", rPos.Distinct, rSrv.Distinct, rGen.Distinct)
 
 	// ---- G
